@@ -28,6 +28,14 @@ CLAIMED = {
         note="Does not decide equality of results for every input; known finding: _stdin_fix reads the unfixable count before the discard step (pinned by the existing test-suite). " + TRUST,
         design_ref="DESIGN.md §3 C19",
     ),
+    "C22": dict(
+        technique="static analysis: backward influence closure from sys.exit arguments (data + control dependence, through helper returns) with suppression/warning filter kinds of every contributing count; counter-advance audit; def-use on stats",
+        text="Decides that every violation count that can influence the exit status of lint/fix/format is taken with suppression AND warning "
+        "filtering, that the LintedDir counters behind them are only advanced by such counts (constant advances must exclude warning records), that "
+        "stats' exit code is fail_code iff the filtered violations statistic is positive, that the exit constants are 0/1/2 and that user errors exit 2 via the CLI handler.",
+        note="Does not decide the 'exactly when' direction for every input/config combination; user errors swallowed by the parallel runner's funnel are C24's R24d. " + TRUST,
+        design_ref="DESIGN.md §3 C22",
+    ),
     "C25": dict(
         technique="static analysis: path-spelling kind inference (abstract interpretation over discovery.py) + CFG must-guard + def-use",
         text="Decides that no comparison in file discovery mixes an absolutised path with a caller-spelled path (the exact condition "
